@@ -338,7 +338,7 @@ func genItems(r *hx.Rand, depth int) *genProgram {
 		item(func() {
 			g.fn = i
 			g.w("function f%d(a, b) ", i)
-			if r.Intn(10) == 0 {
+			if r.Intn(5) == 0 {
 				g.w("{}")
 			} else {
 				g.topBody(depth)
@@ -352,7 +352,7 @@ func genItems(r *hx.Rand, depth int) *genProgram {
 	for i := 0; i < nb; i++ {
 		item(func() {
 			g.w("BEGIN ")
-			if r.Intn(10) == 0 {
+			if r.Intn(5) == 0 {
 				g.w("{}")
 			} else {
 				g.topBody(depth)
@@ -384,7 +384,7 @@ func genItems(r *hx.Rand, depth int) *genProgram {
 	for i := 0; i < ne; i++ {
 		item(func() {
 			g.w("END ")
-			if r.Intn(10) == 0 {
+			if r.Intn(5) == 0 {
 				g.w("{}")
 			} else {
 				g.topBody(depth)
